@@ -192,6 +192,14 @@ impl<'a, C> ParseState<'a, C> {
     /// * 📌自动内联
     #[inline(always)]
     pub fn reset_to(&mut self, input: &str, head: ParseIndex) {
+        #[cfg(narsese_verif)]
+        crate::verif_hooks::probe_dirty_reset(
+            (self.mid_result.budget.is_some() as u8)
+                | (self.mid_result.term.is_some() as u8) << 1
+                | (self.mid_result.punctuation.is_some() as u8) << 2
+                | (self.mid_result.stamp.is_some() as u8) << 3
+                | (self.mid_result.truth.is_some() as u8) << 4,
+        );
         self.env = ParseState::_build_env(input);
         self.len_env = self.env.len();
         self.head = head;
